@@ -4,7 +4,7 @@
    table                                  -> file|func|index|line|style ; ...
    proto <kind>                           -> enter=op:line,... ;update=... ;exit=... ;ps=...
    api <func> <index> <kind> <N> <fail|none>
-                                          -> calls=e,u,x exit=<0|1> alive=<n> blocks=<0|1> tm=<..>
+                                          -> calls=e,u,x exit=<0|1> alive=<n> blocks=<0|1> tm=<..> fin=<0|1> prop=<0|1>
    replay <kind> <guarded 0|1> <nupd> <A> <A> ...   (A = M | F<i> | T<i>)
                                           -> snap0 | A:snap1 | ...     (or ... | A:disabled)
    explore <kind> <guarded> <nupd> <maxfire> <cap>
@@ -160,7 +160,11 @@ def stepLine (line : String) : String :=
         s!"calls={",".intercalate (calls.map methodChar)} " ++
         s!"exit={if calls.contains Method.exit then 1 else 0} " ++
         s!"alive={s.aliveTimers.length} blocks={if s.blocksExit then 1 else 0} " ++
-        s!"tm={String.join (s.timers.map stChar)} fin={if s.mainFinished then 1 else 0}"
+        let truthy := match exitReturn.find? (fun k => k.1 == kind) with
+          | some k => (dunderExit.value k.2).mayBeTruthy
+          | none => false
+        s!"tm={String.join (s.timers.map stChar)} fin={if s.mainFinished then 1 else 0} " ++
+        s!"prop={if apiPropagates u.style n fl truthy then 1 else 0}"
       | _, _ => "bad-op"
     | _, _, _ => "bad-op"
   | "replay" :: kind :: g :: nupd :: acts =>
